@@ -64,10 +64,10 @@ func sliceLenSummary(v ssa.Value) (int64, bool) {
 		if !ok {
 			continue
 		}
-		if len(r.Results) != 1 {
+		if len(load.Results(r)) != 1 {
 			return 0, false
 		}
-		s, ok := r.Results[0].(*ssa.Slice)
+		s, ok := load.Results(r)[0].(*ssa.Slice)
 		if !ok || s.Low != nil || s.High != nil {
 			return 0, false
 		}
@@ -311,9 +311,9 @@ func extractRow(fn *ssa.Function, send bool) *codecRow {
 					}
 				}
 			case *ssa.Return:
-				if !send && len(t.Results) == 2 {
-					if c, ok := t.Results[1].(*ssa.Const); ok && c.IsNil() {
-						if call, isCall := stripConv(t.Results[0]).(*ssa.Call); isCall {
+				if !send && len(load.Results(t)) == 2 {
+					if c, ok := load.Results(t)[1].(*ssa.Const); ok && c.IsNil() {
+						if call, isCall := stripConv(load.Results(t)[0]).(*ssa.Call); isCall {
 							fromBinary := false
 							for _, vb := range viaBinary {
 								if vb == call {
@@ -324,7 +324,7 @@ func extractRow(fn *ssa.Function, send bool) *codecRow {
 								continue
 							}
 						}
-						ws, blocks, ok := recvWeights(t.Results[0], buf, pos)
+						ws, blocks, ok := recvWeights(load.Results(t)[0], buf, pos)
 						if !ok {
 							bad("returned value is not composed of buffer bytes")
 						}
@@ -520,8 +520,8 @@ func mustPass(start *ssa.BasicBlock, startIdx int, want func(ssa.Instruction) bo
 				return true
 			}
 			if r, ok := b.Instrs[i].(*ssa.Return); ok {
-				if errExitOK && len(r.Results) > 0 {
-					last := r.Results[len(r.Results)-1]
+				if errExitOK && len(load.Results(r)) > 0 {
+					last := load.Results(r)[len(load.Results(r))-1]
 					if c, isC := last.(*ssa.Const); !(isC && c.IsNil()) {
 						return true
 					}
